@@ -487,6 +487,9 @@ def _exec_mvn(case, mon):
         for j, ids in enumerate(h["chunks"]):
             mon.lib("accumulate", m.accumulate, chunk_t(ids))
             seen.append(chunk_np(ids))
+            if j + 1 < len(h["chunks"]):
+                # the accumulating object travels (deepcopy / pickle) between two chunks
+                m = LY.travelled(m, hi, j, n, toggle_ok=False)
             if h["midway"] == j:
                 so_far = OS.pool(seen, dim)
                 if so_far.shape[1] >= need:
@@ -503,7 +506,7 @@ def _exec_mvn(case, mon):
         got = _check_stats(mon, m.mean, m.std, obs, bessel, "final", history=hi, chunks=h["chunks"])
         stored.append(got)
         if first is None:
-            first = m
+            first = LY.travelled(m, n, X, dim)
     # every history agrees with every other one (besides agreeing with the oracle)
     _, std_b, _ = OS.pooled_stats(obs, bessel)
     for hi in range(1, len(stored)):
@@ -704,7 +707,7 @@ def _exec_deltas(case, mon):
             else:
                 mod = M.FeatureDeltas(dim, td, conc, order, width, mode)
             # the module keeps its filters in a float32 buffer: usual nn.Module dtype discipline
-            y = mon.lib("FeatureDeltas", mod.to(dt), x, documented=documented)
+            y = mon.lib("FeatureDeltas", LY.travelled(mod.to(dt), x.numel(), order, width), x, documented=documented)
         elif mode == "constant":
             y = mon.lib("feat_deltas", F.feat_deltas, x, dim, td, conc, order, width, mode, value,
                         documented=documented)
@@ -751,7 +754,7 @@ def _exec_returns(case, mon):
     with warnings.catch_warnings():
         warnings.simplefilter("ignore")
         if case["form"] == "module":
-            R = mon.lib("TimeDistributedReturn", M.TimeDistributedReturn(float(gamma), bf), r)
+            R = mon.lib("TimeDistributedReturn", LY.travelled(M.TimeDistributedReturn(float(gamma), bf), r.numel()), r)
         else:
             R = mon.lib("time_distributed_return", F.time_distributed_return, r, float(gamma), bf)
     mon.check(tuple(R.shape) == tuple(r.shape) and R.dtype == r.dtype, "return-shape", observed=list(R.shape),
